@@ -559,6 +559,11 @@ double cdirect_uf(unsigned n, const double *xu, double *grad, void *d_)
      unsigned i;
      for (i = 0; i < n; ++i)
 	  d->x[i] = d->lb[i] + xu[i] * (d->ub[i] - d->lb[i]);
+     /* rounding can leave the box by a few ulps (e.g. xu = 1) */
+     for (i = 0; i < n; ++i) {
+	  if (d->x[i] < d->lb[i]) d->x[i] = d->lb[i];
+	  else if (d->x[i] > d->ub[i]) d->x[i] = d->ub[i];
+     }
      f = d->f(n, d->x, grad, d->f_data);
      if (grad)
 	  for (i = 0; i < n; ++i)
@@ -596,8 +601,13 @@ nlopt_result cdirect(int n, nlopt_func f, void *f_data,
      ret = cdirect_unscaled(n, cdirect_uf, &d, d.x+n, d.x+2*n, x, minf, stop,
 			    magic_eps, which_alg);
      stop->xtol_abs = xtol_abs_save;
-     for (i = 0; i < n; ++i)
+     for (i = 0; i < n; ++i) {
 	  x[i] = lb[i]+ x[i] * (ub[i] - lb[i]);
+	  /* same rounding guard as in cdirect_uf, so that the returned
+	     point is the evaluated one */
+	  if (x[i] < lb[i]) x[i] = lb[i];
+	  else if (x[i] > ub[i]) x[i] = ub[i];
+     }
      free(d.x);
      return ret;
 }
